@@ -1,6 +1,7 @@
 """History generator for CC_Stack (container `stack`, harness/shim_stack.c, Driver/Stack.lean).
 
 Op vocabulary (`o=<slot>` selects the stack, default slot 0):
+  (pop, it_replace, zit_replace take `noout=1`: a NULL out-pointer is passed and no out= is printed)
   new cap=<n> exp=<decimal> | new_default | mk_new to=<k> cap=<n> exp=<decimal> | mk_new_default to=<k>
   push v | pop | peek | size | map | filter_mut | mk_filter to=<k>
   it_new | it_next | it_replace v | zit_new o=<k> p=<j> (p = k allowed: the same stack on both sides) | zit_next | zit_replace v w
@@ -18,12 +19,25 @@ NSLOT = 4
 
 
 def pick_value(rng):
+    """small values and duplicates; 0 (NULL); and — CONVENTIONS addendum 3 — pairs that differ by exactly
+    2^31, 2^32, 2^63 (a small `v` and `v + 2^k`) and values near 2^64 - 1, so that a comparison that
+    truncates a pointer difference to 32 bits, or treats elements as signed, is exposed"""
     r = rng.random()
     if r < 0.08:
         return 0
-    if r < 0.55:
+    if r < 0.16:
+        return rng.randint(1, 6) + rng.choice([2 ** 31, 2 ** 32, 2 ** 63])
+    if r < 0.20:
+        return rng.choice([2 ** 64 - 1, 2 ** 64 - 2, 2 ** 64 - 7, 2 ** 64 - 1000, 2 ** 63 - 1, 2 ** 63, 2 ** 32 - 1, 2 ** 32,
+                           2 ** 31 - 1, 2 ** 31, 2 ** 63 + 2 ** 32 + 3])
+    if r < 0.58:
         return rng.randint(1, 6)
     return rng.randint(1, 99)
+
+
+def maybe_noout(rng, p=0.3):
+    """CONVENTIONS addendum 3: operations with an optional out-pointer are generated with and without it"""
+    return " noout=1" if rng.random() < p else ""
 
 
 
@@ -62,8 +76,8 @@ class StackGen:
     def _small_scope(self, tier, focus=None):
         out = []
         quick = tier == "quick"
-        alpha = ["push", "pop", "peek"]
-        depth = 6 if quick else 8
+        alpha = ["push", "pop", "peek", "pop noout=1"]      # addendum 3: NULL out-pointer
+        depth = 6 if quick else 7
         for cap, ex in ([(1, "2"), (2, "1.5"), (3, "2")] if quick else [(c, e) for c in (1, 2, 3, 4) for e in ("2", "1.5", "1.1")]):
             for n in range(0, depth + 1):
                 for seq in itertools.product(alpha, repeat=n):
@@ -79,8 +93,9 @@ class StackGen:
                     out.append(ops)
         full = ["push 1", "push 2", "push 0", "pop", "peek", "size", "map", "filter_mut", "mk_filter to=1", "drop o=1",
                 "it_new", "it_next", "it_replace 9", "mk_new to=2 cap=1 exp=2", "push 4 o=2", "zit_new o=0 p=2", "zit_next",
-                "zit_replace 7 8"]
-        for cap, d2 in (((1, 3), (2, 2)) if quick else ((1, 4), (2, 3), (3, 3))):
+                "zit_replace 7 8", "pop noout=1", "it_replace 5 noout=1", "zit_replace 3 4 noout=1", f"push {1 + 2 ** 32}",
+                f"push {2 ** 64 - 1}"]
+        for cap, d2 in (((1, 3), (2, 2)) if quick else ((1, 3), (2, 3), (3, 3))):
             for n in range(0, d2 + 1):
                 for seq in itertools.product(full, repeat=n):
                     out.append([f"new cap={cap} exp=2"] + list(seq) + ["destroy"])
@@ -162,7 +177,7 @@ class StackGen:
                 else:
                     v = pick_value(rng); ops.append(f"push {v}{sfx}"); xs.append(v)
             if op == "pop":
-                ops.append("pop" + sfx)
+                ops.append("pop" + sfx + maybe_noout(rng))
                 if xs: xs.pop()
             elif op in ("peek", "size", "map"):
                 ops.append(op + sfx)
@@ -193,7 +208,7 @@ class StackGen:
                         break
                     pos += 1
                     if rng.random() < 0.3:
-                        v = pick_value(rng); ops.append(f"it_replace {v}"); xs[pos - 1] = v
+                        v = pick_value(rng); ops.append(f"it_replace {v}{maybe_noout(rng)}"); xs[pos - 1] = v
                     if rng.random() < 0.05:
                         break
             elif op == "zip_prog":
@@ -214,7 +229,7 @@ class StackGen:
                         break
                     pos += 1
                     if rng.random() < 0.3:
-                        v, w = pick_value(rng), pick_value(rng); ops.append(f"zit_replace {v} {w}"); xa[pos - 1] = v; xb[pos - 1] = w
+                        v, w = pick_value(rng), pick_value(rng); ops.append(f"zit_replace {v} {w}{maybe_noout(rng)}"); xa[pos - 1] = v; xb[pos - 1] = w
                     if rng.random() < 0.05:
                         break
             if rng.random() < 0.03:
